@@ -1,6 +1,6 @@
 (* C10 -- property theorems only. *)
 From Coq Require Import ZArith List Bool.
-From WNTRV Require Import Lib.Sched C10.Proofs.
+From WNTRV Require Import Lib.Sched C10.Proofs C10.Invariant.
 Import ListNotations.
 Local Open Scope Z_scope.
 
@@ -18,7 +18,19 @@ Theorem C10_restart_equiv_partial : forall g D1 D f1 f2 s tr1 s1 tr2 s2,
   steps f2 g D (restart_state g s1) = Some (tr2, s2) ->
   steps (f1 + f2) g D s = Some (tr1 ++ tr2, s2).
 Proof. exact restart_equiv. Qed.
+(* ... and the invariant IS proved for every configuration whose simple controls are sim-time conditions without repeat (AT TIME t,
+   TIME >= t, ...; any rules): after every solved step (ri - 1) * rule_step <= prev < ri * rule_step, so a new simulator object
+   recomputes the very index the paused one had and the continued run is the uninterrupted one -- no side condition left *)
+Theorem C10_rule_index_invariant : forall g D f tr s, simple_cfg g -> steps f g D (init_state g) = Some (tr, s) -> tight_state g s.
+Proof. exact rule_index_invariant. Qed.
+Theorem C10_restart_equiv_sim_time_controls : forall g D1 D f1 f2 tr1 s1 tr2 s2, simple_cfg g ->
+  steps f1 g D1 (init_state g) = Some (tr1, s1) -> st_time s1 <= D -> D1 <= D ->
+  steps f2 g D (restart_state g s1) = Some (tr2, s2) ->
+  steps (f1 + f2) g D (init_state g) = Some (tr1 ++ tr2, s2).
+Proof. exact restart_equiv_simple. Qed.
 Theorem C10_fuel_irrelevant : forall g D f k s r, steps f g D s = Some r -> steps (f + k) g D s = Some r.
 Proof. exact steps_fuel_mono. Qed.
 Print Assumptions C10_pause_continue.
 Print Assumptions C10_restart_equiv_partial.
+Print Assumptions C10_rule_index_invariant.
+Print Assumptions C10_restart_equiv_sim_time_controls.
